@@ -460,3 +460,36 @@ Definition stop_branch (s : cstate) (b : branch) : bool :=
   | BrShutdownChan => st_chan_closed s
   | BrCtx => st_ctx_done s
   end.
+
+(* ---- the provider level ----------------------------------------------------------------------
+   The resolver is built over a TOPOLOGY: n_uri configuration URIs (all served by registered
+   provider 0) and n_aux further registered providers — provider 1, if present, serves exactly one
+   ${scheme:...} expansion inside the configuration and no URI; provider 2 serves nothing at all.
+   [AGet], [AClose] and [AProvShutdown] of the run-loop model stand for the resolver's loops:
+     Resolve      retrieves every URI in order, then the expansion (a failing first URI ends it),
+     closeIfNeeded closes every retrieval of the previous Resolve, in the order they were made,
+     Shutdown     calls Shutdown on EVERY REGISTERED provider (a Go map: order canonicalised by id),
+                  whether it served a URI, an expansion or nothing.                                   *)
+Record topo := mkTopo { n_uri : nat; n_aux : nat }.
+
+Definition retrievals (t : topo) : list nat := seq 0 (n_uri t + (if Nat.leb 1 (n_aux t) then 1 else 0)).
+Definition providers (t : topo) : list nat := seq 0 (1 + n_aux t).
+
+Inductive pevent :=
+| PRetrieve (g u : nat) (ok : bool)
+| PClose (g u : nat)
+| PShutdown (p : nat) (ctx_live : bool).
+
+Definition expand1 (t : topo) (a : action) : list pevent :=
+  match a with
+  | AGet g true => map (fun u => PRetrieve g u true) (retrievals t)
+  | AGet g false => [PRetrieve g 0 false]
+  | AClose g => map (PClose g) (retrievals t)
+  | AProvShutdown b => map (fun p => PShutdown p b) (providers t)
+  | _ => []
+  end.
+
+Definition expand (t : topo) (log : list action) : list pevent := flat_map (expand1 t) log.
+
+Definition is_pshut (p : nat) (e : pevent) : bool := match e with PShutdown q _ => Nat.eqb p q | _ => false end.
+Definition pcount (f : pevent -> bool) (l : list pevent) : nat := length (filter f l).
